@@ -92,3 +92,15 @@ add("C15",
         ), "Instance not found within definition by EDIF identifier\"""", """        if instance is None:
             raise RuntimeError("Instance not found within definition by EDIF identifier")"""), None),
     )
+
+add("C15",
+    Mutant("P3 the design's cell is looked up in the whole netlist although its library was resolved (seeded C15-w3A)",
+           (EP, """        for definition in library.definitions:
+            if definition["EDIF.identifier"] == definition_name:
+                break
+        else:""", """        definition = next(
+            self.elements[0].get_definitions(definition_name, key="EDIF.identifier"),
+            None,
+        )
+        if definition is None:"""), "P3|spydrnet/parsers/edif/parser.py:EdifParser.parse_design|search libraries|result unused"),
+)
